@@ -1753,6 +1753,14 @@ func (g *gen) needFunc(fn *types.Func, explicit bool) string {
 	return name
 }
 
+func pkgOfKey(k string) string {
+	k = strings.TrimPrefix(k, "type ")
+	if i := strings.IndexAny(k, "._"); i >= 0 {
+		return k[:i]
+	}
+	return k
+}
+
 // ---------------------------------------------------------------------------
 
 type cfgEntry struct {
@@ -1945,6 +1953,25 @@ func main() {
 			it.unit = u
 		}
 	}
+	// an unconfigured dependency (record types, helpers) prefers, among the units that need it,
+	// one that holds configured functions of its own Go package; then the earliest in configuration order.
+	unitHasPkg := map[string]map[string]bool{}
+	for _, n := range g.order {
+		it := g.items[n]
+		if u, ok := unitOfKey[it.goKey]; ok {
+			if unitHasPkg[u] == nil {
+				unitHasPkg[u] = map[string]bool{}
+			}
+			unitHasPkg[u][pkgOfKey(it.goKey)] = true
+		}
+	}
+	better := func(cand, cur, pkg string) bool {
+		hc, ho := unitHasPkg[cand][pkg], unitHasPkg[cur][pkg]
+		if hc != ho {
+			return hc
+		}
+		return unitIdx[cand] < unitIdx[cur]
+	}
 	changed := true
 	for changed {
 		changed = false
@@ -1961,21 +1988,69 @@ func main() {
 				if di.extern != "" {
 					continue
 				}
-				if di.unit == "" || unitIdx[it.unit] < unitIdx[di.unit] {
+				if di.unit == "" || better(it.unit, di.unit, pkgOfKey(di.goKey)) {
 					di.unit = it.unit
 					changed = true
 				}
 			}
 		}
 	}
-	// check unit acyclicity w.r.t. configuration order
+	// order the units topologically by their actual dependencies (configuration order breaks ties);
+	// a dependency cycle between units is an error naming the items that cause it.
 	errors := []string{}
+	unitDeps := map[string]map[string]string{} // unit -> unit it needs -> example "a needs b"
 	for _, n := range g.order {
 		it := g.items[n]
+		if it.unit == "" {
+			continue
+		}
 		for d := range it.deps {
-			if unitIdx[g.items[d].unit] > unitIdx[it.unit] {
-				errors = append(errors, fmt.Sprintf("%s (unit %s) depends on %s (later unit %s)", n, it.unit, d, g.items[d].unit))
+			du := g.items[d].unit
+			if du != "" && du != it.unit {
+				if unitDeps[it.unit] == nil {
+					unitDeps[it.unit] = map[string]string{}
+				}
+				unitDeps[it.unit][du] = n + " needs " + d
 			}
+		}
+	}
+	{
+		var sorted []string
+		st := map[string]int{}
+		var visitU func(u string, path []string)
+		visitU = func(u string, path []string) {
+			if st[u] == 2 {
+				return
+			}
+			if st[u] == 1 {
+				msg := "unit dependency cycle:"
+				for i := len(path) - 1; i >= 0; i-- {
+					msg += " " + path[i]
+					if path[i] == u && i != len(path)-1 {
+						break
+					}
+				}
+				errors = append(errors, msg)
+				return
+			}
+			st[u] = 1
+			ds := []string{}
+			for d := range unitDeps[u] {
+				ds = append(ds, d)
+			}
+			sort.Slice(ds, func(i, j int) bool { return unitIdx[ds[i]] < unitIdx[ds[j]] })
+			for _, d := range ds {
+				visitU(d, append(path, u+" ("+unitDeps[u][d]+")"))
+			}
+			st[u] = 2
+			sorted = append(sorted, u)
+		}
+		for _, u := range units {
+			visitU(u, nil)
+		}
+		units = sorted
+		for i, u := range units {
+			unitIdx[u] = i
 		}
 	}
 
